@@ -406,7 +406,7 @@ static bool replayCase(const J &c, long long caseNo, long long &steps) {
         diffs.push_back(J::obj().set("k", "purity").set("path", ev.at("purity").a[0].at("path")).set("exp", "object unchanged by save").set("act", ev.at("purity").a[0]));
     if (ev.has("repeat") && ev.at("repeat").i >= 0)
         diffs.push_back(J::obj().set("k", "repeat").set("path", "bytes").set("exp", "second save byte-identical").set("act", ev.at("repeat")));
-    if (c.has("bytes") && op.at("op").s == "Reload") {
+    if (c.has("bytes") && op.at("op").s == "Reload" && c.gets("out", "ok") != "range_error") {
         const J &eb = c.at("bytes");
         if (!ev.has("bytes")) diffs.push_back(J::obj().set("k", "bytes").set("path", "bytes").set("exp", J(eb.a.size())).set("act", "<no file>"));
         else {
